@@ -792,7 +792,8 @@ def check_observe_time(ctx, cuqi, rng, ncases, bump):
             key = f"TimeDependentLinearPDE.observe:{branch_m}:{cs['tclass']}:{cs['gclass']}"
         # ---- oracle (implementation only)
         oracle_bad = False
-        if res is not None and cs["ndim"] == 2 and gs is not None and impl_err is None:
+        e2 = None
+        if res is not None and cs["ndim"] == 2 and gs is not None:
             go_eff = go if go is not None else gs
             exp = expected_observation(gs, ts, U, go_eff, res, cs["W"])
             if exp is not None:
@@ -802,7 +803,7 @@ def check_observe_time(ctx, cuqi, rng, ncases, bump):
                         e2 = e2.squeeze()
                 except Exception:  # the map itself refuses this shape: nothing to demand
                     e2 = None
-                if e2 is not None and not arr_same(e2, got):
+                if impl_err is None and e2 is not None and not arr_same(e2, got):
                     oracle_bad = True
                     ctx.fail(key, desc, "restriction at coinciding nodes/times, scipy interpolant elsewhere, then map, time axis dropped iff one time: " + short(e2),
                              short(got), "observation is not the solution restricted to the observation grid and times")
@@ -835,7 +836,8 @@ def check_observe_time(ctx, cuqi, rng, ncases, bump):
             continue
         if impl_err is not None:
             ctx.disagree(key, desc, mo[:100], "err:" + impl_err, "implementation refuses, model returns")
-            ctx.fail(key, desc, "an observation", "err:" + impl_err, "observe raises on a valid input")
+            if e2 is not None:      # the demanded observation is well defined (grids present, scipy itself accepts the data)
+                ctx.fail(key, desc, "the observation " + short(e2), "err:" + impl_err, "observe raises on a valid input")
             continue
         am = parse_arr(mo)
         if not arr_same(am, got):
@@ -894,7 +896,8 @@ def check_observe_steady(ctx, cuqi, rng, ncases, bump):
         if impl_err:
             bump("errors", "observe-steady:" + impl_err)
         oracle_bad = False
-        if impl_err is None:
+        e2 = None
+        if True:
             gsl = gs.tolist()
             exp = np.array([u[gsl.index(x)] if x in gsl else (cs["W"][a] if cs["W"] is not None else np.nan) for a, x in enumerate(cs["go_final"])])
             if not np.isnan(exp).any():
@@ -902,7 +905,7 @@ def check_observe_steady(ctx, cuqi, rng, ncases, bump):
                     e2 = exp if om is None else np.asarray(om(exp), dtype=float)
                 except Exception:
                     e2 = None
-                if e2 is not None and not arr_same(e2, got):
+                if impl_err is None and e2 is not None and not arr_same(e2, got):
                     oracle_bad = True
                     ctx.fail(key, desc, "restriction at coinciding nodes, quadratic interpolant elsewhere, then map: " + short(e2), short(got),
                              "steady observation is not the solution restricted to the observation grid")
@@ -912,7 +915,8 @@ def check_observe_steady(ctx, cuqi, rng, ncases, bump):
             continue
         if impl_err is not None:
             ctx.disagree(key, desc, mo[:100], "err:" + impl_err, "implementation refuses, model returns")
-            ctx.fail(key, desc, "an observation", "err:" + impl_err, "observe raises on a valid input")
+            if e2 is not None:
+                ctx.fail(key, desc, "the observation " + short(e2), "err:" + impl_err, "observe raises on a valid input")
             continue
         am = parse_arr(mo)
         if not arr_same(am, got):
